@@ -4,4 +4,3 @@ import ParsleyVerif.Props.C15
 #print axioms PV.Data.c15_sorted
 #print axioms PV.Data.c15_spec_membership
 #print axioms PV.Data.c15_pinned_insert_mutates
-#print axioms PV.Data.c15_source_facts
